@@ -85,6 +85,10 @@ R64 = "RModel.Impl.Rep64."
 L2_R64 = ["RModel.Impl.mem_rep64"] + [R64 + n for n in ["toBSet_and2", "toBSet_or2", "toBSet_xor2", "toBSet_andNot2", "wf_and2", "wf_or2", "wf_xor2",
           "wf_andNot2", "toBSet_flip", "toBSet_sflip", "toBSet_addRange", "toBSet_removeRange", "toBSet_ixor",
           "toBSet_flip_viaStatic", "toBSet_addRange_viaStatic"]]
+B32 = "RModel.BSI32."
+L2_BSI32_UPD = [B32 + n for n in ["wf_new", "wf_setValue", "getValue_eq", "get_set_same", "get_set_other", "get_foldl_setValue",
+                                  "get_clearValues", "get_retainSet", "wf_clearValues", "get_parOr", "get_addIndex", "get_increment"]]
+L2_BSI32_Q = [B32 + n for n in ["compare_spec", "minMax_spec", "sum_spec", "batchEqual_spec", "getValue_eq"]]
 L1_XFORM = ["RModel.BSet.mem_shift", "RModel.BSet.canon_shift", "RModel.BSet.mem_flipRange", "RModel.BSet.canon_xor"]
 
 PROPS = {
@@ -178,17 +182,17 @@ PROPS = {
                          "RModel.BSI.get_clearValues", "RModel.BSI.get_retainSet", "RModel.BSI.get_setFixed_same",
                          "RModel.BSI.get_setFixed_other", "RModel.BSI.get_setFixed_wrap", "RModel.BSI.getValue_eq",
                          "RModel.Facts.bsi64ValueFitsBitCount_spec", "RModel.Facts.encodeBSI64Value_range",
-                         "RModel.Facts.encodeBSI64Value_spec", "RModel.Facts.decode_encode_BSI64"],
-            "modules": ["RProofs.Facts.Bits", "RProofs.BSI"], "owns": None},
+                         "RModel.Facts.encodeBSI64Value_spec", "RModel.Facts.decode_encode_BSI64"] + L2_BSI32_UPD,
+            "modules": ["RProofs.Facts.Bits", "RProofs.BSI", "RProofs.BSI32"], "owns": None},
     "C20": {"suites": [("bsiq", 1.0), ("bsix", 0.5)],
             "theorems": ["RModel.BSI.compare_spec", "RModel.BSI.compareLE_spec", "RModel.BSI.compareInt64LessAndEqual_spec",
                          "RModel.BSI.batchEqual1_spec", "RModel.BSI.compareInt64Value_isSome", "RModel.BSI.value_fits",
                          "RModel.BSI.sum_spec", "RModel.BSI.sumAll_spec", "RModel.BSI.minMax_spec", "RModel.BSI.minMaxCandidates_spec",
-                         "RModel.Facts.transform_monotone", "RModel.Facts.encodeBSI64Value_spec", "RModel.Facts.decode_encode_BSI64"],
-            "modules": ["RProofs.Facts.Bits", "RProofs.BSI"], "owns": None},
+                         "RModel.Facts.transform_monotone", "RModel.Facts.encodeBSI64Value_spec", "RModel.Facts.decode_encode_BSI64"] + L2_BSI32_Q,
+            "modules": ["RProofs.Facts.Bits", "RProofs.BSI", "RProofs.BSI32"], "owns": None},
 }
 
-HOOK_COMMITS = ["ad703f4", "ff7f62c", "c535057"]
+HOOK_COMMITS = ["ad703f4", "ff7f62c", "c535057", "a3657c9"]
 NOT_YET = {}
 DEFAULT_LEVEL_TEXT = ("Theorems (Lean 4 kernel-checked, unbounded) give the meaning of every operation of the executable oracle in terms of "
                       "membership, and uniqueness of canonical forms; the real Go code is tied to that proved oracle by a correspondence "
